@@ -996,6 +996,9 @@ func (d *Driver) Exec(opName string, a M) M {
 			j = d.respJournal
 		}
 		for _, e := range j {
+			if e.Signal {
+				out["signalled"] = true // a contract-defined signal of the storage (ErrDuplicateUserCode), not a failure
+			}
 			if e.Fault {
 				out["faulted"] = true
 				out["faultedCall"] = e.Method
